@@ -6,7 +6,10 @@
 
   `Expected` below is a verbatim copy of the generator's output for the pinned source; any edit of the decision
   logic of one of these functions makes the corresponding `tie_*` theorem fail (the orchestrator then searches
-  for a concrete failing input).
+  for a concrete failing input).  The skeletons pin only what the model transcribes (classification, recover /
+  re-panic, try-frame handling, iterator closing, error wrapping / unwrapping): extract/c14.go drops lines that
+  belong to other properties' mechanisms (leaveAbrupt / call-stack bookkeeping / pc resets / message texts /
+  async-context tracker), and functions the model does not transcribe are not pinned.
 -/
 import GojaModel.C14.Model
 import GojaModel.Generated.C14_PanicKinds
@@ -47,8 +50,6 @@ def skel_handleThrow : List String := [
   ".if tf.catchPos == -1 && tf.finallyPos == -1 || ex == nil && tf.catchPos != tryPanicMarker",
   "..tf.exception = nil",
   "..continue",
-  ".if int(tf.callStackLen) < len(vm.callStack)",
-  "..vm.prg, vm.newTarget, vm.result, vm.pc, vm.sb, vm.args = ctx.prg, ctx.newTarget, ctx.result, ctx.pc, ctx.sb, ctx.args",
   "._ = vm._restoreStacks(tf.iterLen, tf.refLen, ex != nil)",
   ".if tf.catchPos == tryPanicMarker",
   "..break",
@@ -95,15 +96,12 @@ def skel_runWrapped : List String := [
   "..if x := recover(); x != nil",
   "...if ex := asUncatchableException(x); ex != nil",
   "....err = ex",
-  "....if len(r.vm.callStack) == 0",
-  ".....r.leaveAbrupt()",
   "...else",
   "....panic(x)",
   ".}",
   "ex := r.vm.try(f)",
   "if ex != nil",
   ".err = ex",
-  "if len(r.vm.callStack) == 0",
   "else",
   "return"]
 
@@ -119,9 +117,6 @@ def skel_ExceptionUnwrap : List String := [
   "...e1, _ := val.Export().(error)",
   "...return e1",
   "return nil"]
-
-def skel_ExceptionValue : List String := [
-  "return e.val"]
 
 def skel_InterruptedUnwrap : List String := [
   "if err, ok := e.iface.(error); ok",
@@ -175,8 +170,6 @@ def skel_Try : List String := [
   "defer func() { if x := recover",
   ".func{",
   "..if x := recover(); x != nil",
-  "...if len(r.vm.callStack) == 0 && asUncatchableException(x) != nil",
-  "....r.leaveAbrupt()",
   "...panic(x)",
   ".}",
   "return r.vm.try(f)"]
@@ -189,22 +182,23 @@ def skel_rtry : List String := [
 def skel_AssertFunction : List String := [
   "if obj, ok := v.(*Object); ok",
   ".if f, ok := obj.self.assertCallable(); ok",
-  "..return func(this Value, args ...Value) (ret Value, err error) { err = obj.runtime.runWrapped(func() { ret = f(FunctionCall{ This: this, Arguments: args, }) }) return }, true",
+  "..return func",
+  "...func{",
+  "....err = obj.runtime.runWrapped(func)",
+  ".....func{",
+  "......ret = f(FunctionCall{ This: this, Arguments: args, })",
+  ".....}",
+  "....return",
+  "...}",
   "return nil, false"]
 
 def skel_leave : List String := [
   "for ; len(r.jobQueue) > 0; ",
   ".range jobs"]
 
-def skel_leaveAbrupt : List String := []
-
 def skel_restoreStacks : List String := [
   "defer func() { if int(iterLen)",
   ".func{",
-  "..if int(iterLen) < len(vm.iterStack)",
-  "...range tail",
-  "..if int(refLen) < len(vm.refStack)",
-  "...range tail",
   ".}",
   "for i := len(iterTail) - 1; i >= 0; i--",
   ".if iter := iterTail[i].iter; iter != nil && closeIters",
@@ -216,9 +210,6 @@ def skel_restoreStacks : List String := [
   "...ex = ex1",
   "range refTail",
   "return"]
-
-def skel_restoreStacksWrapper : List String := [
-  "return vm._restoreStacks(iterLen, refLen, true)"]
 
 def skel_generatorObjectStep : List String := [
   "if ex != nil",
@@ -237,15 +228,6 @@ def skel_generatorObjectStep : List String := [
   "default",
   ".panic(g.val.runtime.NewTypeError(\"Runtime bug: unexpected result type: %v\", resType))"]
 
-def skel_generatorStep : List String := [
-  "defer func() { if !completed {",
-  ".func{",
-  "..if !completed",
-  "...if l := int(g.tryStackLen) - 1; l >= 0 && l < len(g.vm.tryStack)",
-  ".}",
-  "res, resultType, ex = g.step1()",
-  "return"]
-
 def skel_asyncRunnerStep : List String := [
   "if done || ex != nil",
   ".if ex == nil",
@@ -253,11 +235,6 @@ def skel_asyncRunnerStep : List String := [
   ".else",
   "..ar.promiseCap.reject(ex.val)",
   ".return"]
-
-def skel_asyncRunnerStart : List String := [
-  "defer ar.gen.dropMarkerOnPanic",
-  "res, resType, ex := ar.gen.step()",
-  "if ex != nil"]
 
 def skel_ExceptionError : List String := [
   "if e == nil",
@@ -279,50 +256,36 @@ def skel_ExceptionValueString : List String := [
   "defer func() { if x := recover",
   ".func{",
   "..if x := recover(); x != nil",
-  "...s = \"[exception value of class \" + obj.ClassName() + \" cannot be converted to a string]\"",
   ".}",
   "if ex := obj.runtime.vm.try(func() { s = obj.String() }); ex != nil",
-  ".s = \"[exception value of class \" + obj.ClassName() + \" cannot be converted to a string]\"",
   "return"]
 
 def skel_underscoreCall : List String := [
   "vm.pushTryFrame(tryPanicMarker, -1)",
   "defer vm.popTryFrame",
-  "if vm.prg != nil",
   "else",
-  ".vm.pc = -2",
-  "vm.pc = 0",
   "for ; ; ",
   ".ex := vm.runTryInner()",
   ".if ex != nil",
   "..return nil, ex",
   ".if vm.halted()",
   "..break",
-  "if needPop",
   "return vm.pop(), nil"]
 
 def skel_RunProgram : List String := [
-  "defer func() { if recursive { ",
   ".func{",
-  "..if recursive",
-  "...if pushed",
   "..else",
   "..if x := recover(); x != nil",
   "...if ex := asUncatchableException(x); ex != nil",
   "....err = ex",
-  "....if len(vm.callStack) == 0",
-  ".....r.leaveAbrupt()",
   "...else",
   "....panic(x)",
   ".}",
-  "if recursive",
   "else",
-  "vm.pc = 0",
   "ex := vm.runTry()",
   "if ex == nil",
   "else",
   ".err = ex",
-  "if recursive",
   "else",
   "return"]
 
@@ -349,7 +312,24 @@ def skel_wrapJSFuncErr : List String := [
   "..panic(err)"]
 
 def skel_promiseReactionJob : List String := [
-  "return func() { var handlerResult Value fulfill := false if reaction.handler == nil { handlerResult = argument if reaction.typ == promiseReactionFulfill { fulfill = true } } else { if tracker := r.asyncContextTracker; tracker != nil { tracker.Resumed(reaction.asyncCtx) } ex := r.vm.try(func() { handlerResult = r.callJobCallback(reaction.handler, _undefined, argument) fulfill = true }) if ex != nil { handlerResult = ex.val } if tracker := r.asyncContextTracker; tracker != nil { tracker.Exited() } } if reaction.capability != nil { if fulfill { reaction.capability.resolve(handlerResult) } else { reaction.capability.reject(handlerResult) } } }"]
+  "return func",
+  ".func{",
+  "..if reaction.handler == nil",
+  "...handlerResult = argument",
+  "...if reaction.typ == promiseReactionFulfill",
+  "..else",
+  "...ex := r.vm.try(func)",
+  "....func{",
+  ".....handlerResult = r.callJobCallback(reaction.handler, _undefined, argument)",
+  "....}",
+  "...if ex != nil",
+  "....handlerResult = ex.val",
+  "..if reaction.capability != nil",
+  "...if fulfill",
+  "....reaction.capability.resolve(handlerResult)",
+  "...else",
+  "....reaction.capability.reject(handlerResult)",
+  ".}"]
 
 def uncatchableMarkerReceivers : List String := [
   "*baseUncatchableException"]
@@ -385,7 +365,6 @@ theorem tie_skel_runTryInner : GojaModel.Generated.C14.skel_runTryInner = Expect
 theorem tie_skel_runWrapped : GojaModel.Generated.C14.skel_runWrapped = Expected.skel_runWrapped := by rfl
 theorem tie_skel_NewGoError : GojaModel.Generated.C14.skel_NewGoError = Expected.skel_NewGoError := by rfl
 theorem tie_skel_ExceptionUnwrap : GojaModel.Generated.C14.skel_ExceptionUnwrap = Expected.skel_ExceptionUnwrap := by rfl
-theorem tie_skel_ExceptionValue : GojaModel.Generated.C14.skel_ExceptionValue = Expected.skel_ExceptionValue := by rfl
 theorem tie_skel_InterruptedUnwrap : GojaModel.Generated.C14.skel_InterruptedUnwrap = Expected.skel_InterruptedUnwrap := by rfl
 theorem tie_skel_throwExec : GojaModel.Generated.C14.skel_throwExec = Expected.skel_throwExec := by rfl
 theorem tie_skel_call : GojaModel.Generated.C14.skel_call = Expected.skel_call := by rfl
@@ -395,13 +374,9 @@ theorem tie_skel_Try : GojaModel.Generated.C14.skel_Try = Expected.skel_Try := b
 theorem tie_skel_rtry : GojaModel.Generated.C14.skel_rtry = Expected.skel_rtry := by rfl
 theorem tie_skel_AssertFunction : GojaModel.Generated.C14.skel_AssertFunction = Expected.skel_AssertFunction := by rfl
 theorem tie_skel_leave : GojaModel.Generated.C14.skel_leave = Expected.skel_leave := by rfl
-theorem tie_skel_leaveAbrupt : GojaModel.Generated.C14.skel_leaveAbrupt = Expected.skel_leaveAbrupt := by rfl
 theorem tie_skel_restoreStacks : GojaModel.Generated.C14.skel_restoreStacks = Expected.skel_restoreStacks := by rfl
-theorem tie_skel_restoreStacksWrapper : GojaModel.Generated.C14.skel_restoreStacksWrapper = Expected.skel_restoreStacksWrapper := by rfl
 theorem tie_skel_generatorObjectStep : GojaModel.Generated.C14.skel_generatorObjectStep = Expected.skel_generatorObjectStep := by rfl
-theorem tie_skel_generatorStep : GojaModel.Generated.C14.skel_generatorStep = Expected.skel_generatorStep := by rfl
 theorem tie_skel_asyncRunnerStep : GojaModel.Generated.C14.skel_asyncRunnerStep = Expected.skel_asyncRunnerStep := by rfl
-theorem tie_skel_asyncRunnerStart : GojaModel.Generated.C14.skel_asyncRunnerStart = Expected.skel_asyncRunnerStart := by rfl
 theorem tie_skel_ExceptionError : GojaModel.Generated.C14.skel_ExceptionError = Expected.skel_ExceptionError := by rfl
 theorem tie_skel_ExceptionString : GojaModel.Generated.C14.skel_ExceptionString = Expected.skel_ExceptionString := by rfl
 theorem tie_skel_ExceptionValueString : GojaModel.Generated.C14.skel_ExceptionValueString = Expected.skel_ExceptionValueString := by rfl
@@ -491,7 +466,15 @@ theorem tie_error_method_guarded :
     GojaModel.Generated.C14.skel_ExceptionError.contains ".b.WriteString(e.valueString())" = true ∧
     GojaModel.Generated.C14.skel_ExceptionString.contains ".b.WriteString(e.valueString())" = true ∧
     GojaModel.Generated.C14.skel_ExceptionValueString.contains "..if x := recover(); x != nil" = true ∧
+    GojaModel.Generated.C14.skel_ExceptionValueString.contains "if ex := obj.runtime.vm.try(func() { s = obj.String() }); ex != nil" = true ∧
     (∀ ex : Exc, ex.errorPanics = false) := by
-  refine ⟨by decide, by decide, by decide, fun _ => rfl⟩
+  refine ⟨by decide, by decide, by decide, by decide, fun _ => rfl⟩
+
+/-- Runtime.ForOf closes the iterator UNGUARDED after the step callback threw (the model's `fot` frame lets the
+exception of return() replace the original one; known finding C14 `forof-return-replaces-exception`). -/
+theorem tie_forOf_return_unguarded :
+    GojaModel.Generated.C14.skel_ForOf.contains "...iter.returnIter()" = true ∧
+    (applyFrame 2 .fot false (.panic (.exc ⟨.obj 1, .thrower⟩) .thrower)).1 =
+      .panic (.exc ⟨.freshErr .error .other, .other⟩) .other := by decide
 
 end GojaModel.C14.Tie
